@@ -39,6 +39,7 @@ type etxRec struct {
 	slip     uint64 // the sort key prime uses (0 for everything but conversions)
 	orig     *types.Transaction
 	emitted  uint64 // zone height
+	rolled   uint64 // height of the coincident block whose manifest covers the emitting block (0: not yet)
 	received int
 	executed int
 }
@@ -177,6 +178,22 @@ func runC04h(seed uint64, n int, outDir string, replay string) {
 				}
 				// prime sorts (and reprices) what it confirms only once the exchange-rate controller runs
 				sorted := st.order == common.PRIME_CTX && blk.NumberU64(common.PRIME_CTX) > params.ControllerKickInBlock
+				// T3: deadlines.  A coincident (region-level) block rolls up what the zone blocks before it emitted; a
+				// region-order block must then have delivered every region-confirmed ETX rolled up so far, a prime-order
+				// block every prime-confirmed ETX rolled up by the coincident blocks before it.
+				if st.order < common.ZONE_CTX {
+					for _, rec := range recs {
+						if rec.rolled != 0 && rec.received == 0 && ((st.order == common.REGION_CTX && rec.class == "S") || (st.order == common.PRIME_CTX && rec.class == "P")) {
+							o.Violate("c04-etx-lost-in-transit", fmt.Sprintf("ETX %s (class %s) emitted by block %d and rolled up by coincident block %d has not reached the zone with the %s-order block %d", rec.id, rec.class, rec.emitted, rec.rolled, map[int]string{0: "prime", 1: "region"}[st.order], num))
+							rec.received = -1 // reported once
+						}
+					}
+					for _, rec := range recs {
+						if rec.rolled == 0 && rec.emitted < num {
+							rec.rolled = num
+						}
+					}
+				}
 				o.Op("blk %d %s %s", st.order, b01(sorted), strings.Join(em, " "))
 				ans(strings.Join(in, " "))
 				o.Count(fmt.Sprintf("order:%d", st.order))
